@@ -1136,12 +1136,23 @@ fn wire_send(sh: &Sh, bytes: &[u8]) -> Result<usize, Error> {
     if is_early {
         s.fault("early");
     }
+    if is_early && crate::tape::gen() >= 2 {
+        // A premature copy (deliverable at once) in addition to the regular response.
+        s.wire.push(InFlight {
+            bytes: bytes_out.clone(),
+            req: Some(req),
+            slot,
+            sent_mark,
+            early: true,
+            genuine: false,
+        });
+    }
     s.wire.push(InFlight {
         bytes: bytes_out.clone(),
         req: Some(req),
         slot,
         sent_mark,
-        early: is_early,
+        early: is_early && crate::tape::gen() < 2,
         genuine: true,
     });
     if is_dup {
@@ -1151,7 +1162,7 @@ fn wire_send(sh: &Sh, bytes: &[u8]) -> Result<usize, Error> {
             req: Some(req),
             slot,
             sent_mark,
-            early: is_early,
+            early: is_early && crate::tape::gen() < 2,
             genuine: false,
         });
     }
@@ -1320,7 +1331,10 @@ pub fn draw_cfg(prop: Prop, t: &mut Tape, thorough: bool) -> ScenCfg {
     };
     let max_ops = if thorough || prop == Prop::C20 { 6 } else { 4 };
     let cap = frame_len - 28; // payload capacity of a single-datagram frame
-    let abandon_enabled = matches!(prop, Prop::C03 | Prop::C06 | Prop::C20);
+    // gen >= 2: C02 also covers the owner letting go by dropping its future (no deadlines), at any
+    // instant - also while the transmit or receive side is inside the buffer.
+    let c02_abandon = prop == Prop::C02 && crate::tape::gen() >= 2 && t.flag(35, 100, "c02_abandon");
+    let abandon_enabled = matches!(prop, Prop::C03 | Prop::C06 | Prop::C20) || c02_abandon;
     let mut tasks = Vec::new();
     for ti in 0..n_tasks {
         let n_ops = 1 + t.choose(max_ops, "n_ops");
@@ -1459,6 +1473,14 @@ pub fn draw_cfg(prop: Prop, t: &mut Tape, thorough: bool) -> ScenCfg {
             cfg.tx_partial = t.pick(&[0u32, 15], "tx_partial_rate");
             cfg.dup = t.pick(&[0u32, 25], "dup");
             cfg.tx_multi_read = true;
+            if crate::tape::gen() >= 2 {
+                // A copy of the response that reaches the receive side before the transmit side has
+                // finished sending (it must be refused; the regular copy follows).
+                cfg.early = t.pick(&[0u32, 30], "early_copy");
+                if c02_abandon {
+                    cfg.trans = TransMode::WithDeadlines;
+                }
+            }
         }
         Prop::C03 => {
             cfg.strategy = Strategy::Random { stay: 100 };
@@ -1515,6 +1537,9 @@ pub fn draw_cfg(prop: Prop, t: &mut Tape, thorough: bool) -> ScenCfg {
             cfg.realloc_probe = true;
             cfg.trans = TransMode::WithDeadlines;
             cfg.tx_multi_read = true;
+            if crate::tape::gen() >= 2 {
+                cfg.early = t.pick(&[0u32, 0, 25], "early_copy");
+            }
         }
     }
     cfg
